@@ -354,6 +354,11 @@ func (s *socket) RecvMsg() (*protocol.Message, error) {
 }
 
 func (s *socket) AddPipe(pp protocol.Pipe) error {
+	s.Lock()
+	defer s.Unlock()
+	if s.closed {
+		return protocol.ErrClosed
+	}
 	p := &pipe{
 		p:      pp,
 		s:      s,
@@ -361,11 +366,6 @@ func (s *socket) AddPipe(pp protocol.Pipe) error {
 		closeQ: make(chan struct{}),
 	}
 	pp.SetPrivate(p)
-	s.Lock()
-	defer s.Unlock()
-	if s.closed {
-		return protocol.ErrClosed
-	}
 	s.pipes[p.p.ID()] = p
 	go p.receiver()
 	go p.sender()
